@@ -74,6 +74,19 @@ theorem C20_walker_lists_every_event (tb : Nat) (evs : List (Nat × Spec.Msg)) (
   trackGo_enc tb evs hw pre post info heot ht f hf
 
 open Sakura.Dt in
+/-- **a SysEx of any length with any data**: the dump reads the length field (a variable-length quantity) and lists exactly that many
+    bytes — an F7 among them is data, not the end of the message — and goes on with the byte after them -/
+theorem C20_sysex_any_data (pre rest d : List Nat) (info : Info) :
+    eventStep (pre ++ (0xF0 :: (encodeDelta d.length ++ d) ++ rest)) pre.length info =
+      ("SysEx$=" ++ ("F0," ++ "/*len:" ++ hexUp d.length ++ "*/" ++ sysexJoin d) ++ ";",
+        pre.length + (1 + ((encodeDelta d.length).length + d.length)), info) := by
+  have h := eventStep_sysex pre rest info d trivial
+  simp only [encMsg, textOf, upd, List.length_cons, List.length_append] at h
+  rw [h]
+  refine Prod.ext rfl (Prod.ext ?_ rfl)
+  simp only; omega
+
+open Sakura.Dt in
 /-- a line's position is `dumpPos` of the event's absolute time — with `C20_position_roundtrip`: a note placed with TIME(m:b:t)
     is listed at TIME(m:b:t) -/
 theorem C20_line_position (tb : Nat) (info : Info) (m b t : Nat) (txt : String) (htb : 0 < tb) (hd : 0 < info.deno)
@@ -106,7 +119,7 @@ theorem C20_dump_generate (tb : Nat) (tracks : List (List Event)) (htb : tb < 65
 open Sakura.Dt in
 def demoSong : List (List Event) :=
   [[⟨.metaEv, 0, 0, 255, 0x51, 3, [7, 161, 32]⟩, ⟨.metaEv, 0, 0, 255, 0x58, 4, [3, 3, 24, 8]⟩],
-   [⟨.noteOn, 96, 1, 60, 90, 100, []⟩, ⟨.pitchBend, 0, 1, 8292, 0, 0, []⟩, ⟨.sysex, 10, 0, 0, 0, 0, [0xF0, 0x41, 0x10, 0xF7]⟩,
+   [⟨.noteOn, 96, 1, 60, 90, 100, []⟩, ⟨.pitchBend, 0, 1, 8292, 0, 0, []⟩, ⟨.sysex, 10, 0, 0, 0, 0, [0xF0, 0x41, 0xF7, 0x10, 0xF7]⟩,
     ⟨.pitchBendRange, 20, 1, 12, 0, 0, []⟩]]
 
 open Sakura.Dt in
@@ -118,14 +131,14 @@ example : ∀ es ∈ demoSong, ∀ e ∈ es, DValid e := by
   · rcases he with rfl | rfl | rfl | rfl
     · simp only [DValid, Spec.Valid]; decide
     · simp only [DValid, Spec.Valid]; decide
-    · refine ⟨by simp only [Spec.Valid]; decide, [0x41, 0x10], rfl, by decide, by decide⟩
+    · refine ⟨by simp only [Spec.Valid]; decide, [0x41, 0xF7, 0x10, 0xF7], rfl⟩
     · simp only [DValid, Spec.Valid]; decide
 
 -- non-vacuity: a track with a time signature, a program change, a bend, a note, a text meta, a SysEx and End-of-Track
 open Sakura.Dt in
 def demoTrack : List (Nat × Spec.Msg) :=
   [(0, .metaM 0x58 [3, 3, 24, 8]), (0, .prog 2 40), (10, .bend 2 0 64), (200, .noteOn 2 60 100), (16383, .noteOff 2 60 0),
-   (0, .metaM 3 [97, 98]), (5, .sysex [0x41, 0x10, 0xF7]), (0, .metaM 0x2F [])]
+   (0, .metaM 3 [97, 98]), (5, .sysex [0x41, 0xF7, 0x10, 0xF7]), (0, .metaM 0x2F [])]
 
 open Sakura.Dt in
 example : (∀ e ∈ demoTrack, WF e.2) ∧ (updAll {} demoTrack).eot = true ∧ total demoTrack < 18446744073709551616 := by
@@ -133,7 +146,6 @@ example : (∀ e ∈ demoTrack, WF e.2) ∧ (updAll {} demoTrack).eot = true ∧
   intro e he
   simp only [demoTrack, List.mem_cons, List.not_mem_nil, or_false] at he
   rcases he with rfl | rfl | rfl | rfl | rfl | rfl | rfl | rfl
-  all_goals first | (simp only [WF]; omega) | (simp only [WF]; decide) | skip
-  all_goals (simp only [WF]; refine ⟨by decide, [0x41, 0x10], rfl, by decide⟩)
+  all_goals first | (simp only [WF]; omega) | (simp only [WF]; decide) | simp only [WF]
 
 end Sakura.Props.C20
